@@ -90,7 +90,7 @@ Affected(d, kind, ks) ==
 Legal(d, kind, ks) ==
   /\ kind = "ins" => \A k \in ks : d[k] = Absent
   /\ kind \in {"ins", "ups"} => ks # {}
-  /\ kind = "ups" => Cardinality(ks) = 1
+  \* (an upsert may name several rows: some inserted, some updated by the same statement)
 
 Init ==
   /\ db \in [Keys -> InitRows]
